@@ -162,7 +162,8 @@ class WheelBuilder(Builder):
                 paths.add(include.base.resolve().as_posix())
 
         content = ""
-        for path in paths:
+        # sorted: the iteration order of a set of strings depends on PYTHONHASHSEED
+        for path in sorted(paths):
             content += path + os.linesep
 
         pth_file = Path(self._module.name).with_suffix(".pth")
